@@ -256,6 +256,24 @@ fn run_obj(edges: &[Value], t: &mut Tracer) {
     }
 }
 
+/// the migrate entry points: every contract asked to migrate to the freshly stored code of every contract (its own included: the
+/// same version), by the chain-level admin and by a stranger. Beyond the listed properties (S_ guards).
+fn run_migrations(t: &mut Tracer) {
+    for c in ["pm", "fm", "em", "fc"] {
+        for code in ["pm", "fm", "em", "fc"] {
+            for by_admin in [true, false] {
+                let mut s = fresh();
+                let sender = if by_admin { s.users[0].clone() } else { s.users[3].clone() };
+                let before = s.digest();
+                let r = s.try_migrate(c, code, &sender);
+                let same = s.digest() == before;
+                t.emit("auth_migrate", json!({"c": c, "code": code, "by_admin": by_admin, "newer": false, "ok": r.is_ok(),
+                    "errtext": r.err().unwrap_or_default().chars().take(160).collect::<String>(), "digest_same": same}));
+            }
+        }
+    }
+}
+
 pub fn run(path: &str, t: &mut Tracer) {
     let text = std::fs::read_to_string(path).expect("edges file");
     let all_edges: Vec<Value> = text.lines().filter_map(|l| serde_json::from_str(l).ok()).collect();
@@ -287,6 +305,7 @@ pub fn run(path: &str, t: &mut Tracer) {
         }
     }
     t.reset("auth_edges", json!({"edges": edges.len(), "obj_edges": obj_edges.len()}));
+    run_migrations(t);
     run_obj(&obj_edges, t);
     let build = |k: &str, path_to: &HashMap<String, Vec<usize>>| -> Option<Sys> {
         let mut s = fresh();
